@@ -260,11 +260,20 @@ def _symptom(exp, got):
     return "content-altered"
 
 
-def _text_label(delim, bs, text, exp, got):
+def _text_label(delim, bs, text, exp, got, enc="utf-8"):
     """mechanism label for ONE file: delimiter class & blocksize class & content predicates relevant to the symptom"""
     dc = _delimclass(delim)
     sym = _symptom(exp, got)
     feats = [dc, "blocksize=None" if bs is None else "blocksize=int"]
+    if bs is not None and dc == "selfoverlap-delim":
+        try:
+            nbytes = len(text.encode(enc))
+        except UnicodeError:
+            nbytes = len(text)
+        if bs >= nbytes:
+            # the whole file is ONE block: no block boundary can fall inside a run of overlapping occurrences, so this is
+            # not the known boundary mechanism of small blocksizes
+            feats[-1] = "blocksize>=file"
     if sym in ("trailing-empty-line", "empty-line-element"):
         d = delim if delim is not None else "\n"
         feats.append("ends-with-delim" if exp and exp[-1].endswith(d) else "not-ends-with-delim")
@@ -466,7 +475,7 @@ def _check_text(ctx, paths, texts, delim, enc, bs=None, fpp=None, include_path=F
         return
     detail.update(got=lines[:30], expected=exp[:30])
     if len(paths) == 1:
-        ctx.violation(_text_label(delim, bs, texts[0], exp, lines), "got %r expected %r" % (lines[:12], exp[:12]), **detail)
+        ctx.violation(_text_label(delim, bs, texts[0], exp, lines, enc), "got %r expected %r" % (lines[:12], exp[:12]), **detail)
         return
     # several files: find the file(s) that fail on their own, with the same parameters
     kw1 = dict(kw)
@@ -482,7 +491,7 @@ def _check_text(ctx, paths, texts, delim, enc, bs=None, fpp=None, include_path=F
             continue
         if g != e:
             found = True
-            ctx.violation(_text_label(delim, bs, t, e, g), "file %r: got %r expected %r" % (t[:60], g[:12], e[:12]), **detail)
+            ctx.violation(_text_label(delim, bs, t, e, g, enc), "file %r: got %r expected %r" % (t[:60], g[:12], e[:12]), **detail)
     if not found:
         ctx.violation("read_text:%s&%s&several-files:lines-differ-only-in-combination" % (_delimclass(delim), bsc),
                       "each file alone is read correctly; together got %r expected %r" % (lines[:12], exp[:12]), **detail)
